@@ -27,6 +27,9 @@ def main() -> int:
     # 0. constants and tables regenerated from the imported source
     import extract
     extract.write_generated()
+    if extract.FALLBACKS:
+        run.notes.append('constants not found in the source text any more (value of the model used, behaviour still compared): '
+                         + ', '.join(extract.FALLBACKS))
     # 1. P: proof obligations
     ok, log = lake_build(['eadriver'])
     if not ok:
